@@ -56,8 +56,10 @@ class UDPListener:
 
         available = MAX_MESSAGE_LEN - len(self._getMessage(2**16-1))
         if available < 0:
-            desc_length = len(self.description.encode('utf-8'))
-            if available + desc_length < 0:
+            description, self.description = self.description, ''
+            fits_without_description = len(self._getMessage(2**16-1)) <= MAX_MESSAGE_LEN
+            self.description = description
+            if not fits_without_description:
                 self.log.warn('Equipment id and firmware name exceed 430 byte '
                               'limit, not answering to udp discovery')
                 self.is_enabled = False
